@@ -67,6 +67,8 @@ def demo_flags(demo_src):
             extra.append(fl)
     if re.search(r'demo[AB]?\.c\s+src/', cmd):
         extra.append('--demo-first')
+    if re.search(r'(?<![\w-])-pthread(?![\w-])', cmd):
+        extra.append('-pthread')
     if '-Wl,-z,now' in cmd:
         extra.append('-Wl,-z,now')
     if '-fgnuc-version=0' in cmd:
